@@ -62,6 +62,7 @@ QUANT = ['CpoR', 'HoRT', 'SoR', 'GoRT']
 DIMQ = [('get_Cp', 'J/mol/K'), ('get_H', 'kJ/mol'), ('get_S', 'cal/mol/K'), ('get_G', 'eV')]
 GETTERS = ['get_' + q for q in QUANT] + [g for g, _ in DIMQ]
 ARRAY_LENGTHS = [1, 2, 3, 7, 50]
+ARRAY_LENGTHS_T = [1, 2, 3, 4, 7, 13, 25, 50]
 # every getter documents 'float or (N,) numpy.ndarray'; python lists are not documented anywhere, so they are
 # not judged (DESIGN C02: 'Python list where the signature documents it')
 CONTAINERS = ['ndarray']
@@ -123,7 +124,7 @@ def bounds(tier):
                 nasa9_segments='1-4, ascending and shuffled listing',
                 lattice_ratio=_ratio(tier), shomate_units=UNITS_Q if tier == 'quick' else UNITS_T,
                 coefficient_sets='basis vectors e_i (7/9/8 per family) + %s' % COEF_NAMES,
-                array_lengths=ARRAY_LENGTHS, array_orders=['asc', 'desc', 'rep'],
+                array_lengths=ARRAY_LENGTHS if tier == 'quick' else ARRAY_LENGTHS_T, array_orders=['asc', 'desc', 'rep'],
                 array_containers=['ndarray (float dtype)', 'ndarray (int dtype)'], getters=GETTERS,
                 linearity='all pairs of basis vectors, multiples %s' % MULTIPLES,
                 quadrature='16-point Gauss-Legendre, 2 panels per edge')
@@ -132,16 +133,17 @@ def bounds(tier):
 def shards(tier):
     r = _ratio(tier)
     out = []
+    L = ARRAY_LENGTHS if tier == 'quick' else ARRAY_LENGTHS_T
     for b in range(4):
-        out.append(dict(kind='obj', fam='nasa7', b=b, ratio=r))
+        out.append(dict(kind='obj', fam='nasa7', b=b, ratio=r, lengths=L))
     for b in range(4):
         for n in (1, 2, 3, 4):
             for order in (['asc'] if n == 1 else ['asc', 'shuf']):
-                out.append(dict(kind='obj', fam='nasa9', b=b, n=n, order=order, ratio=r))
-    out.append(dict(kind='obj', fam='nasa9', b=-1, n=2, order='gap', ratio=r))   # a hole between the segments
+                out.append(dict(kind='obj', fam='nasa9', b=b, n=n, order=order, ratio=r, lengths=L))
+    out.append(dict(kind='obj', fam='nasa9', b=-1, n=2, order='gap', ratio=r, lengths=L))   # a hole between the segments
     for b in range(4):
         for u in (UNITS_Q if tier == 'quick' else UNITS_T):
-            out.append(dict(kind='obj', fam='shomate', b=b, units=u, ratio=r))
+            out.append(dict(kind='obj', fam='shomate', b=b, units=u, ratio=r, lengths=L))
     out.append(dict(kind='lin', fam='nasa7', units=[None], ratio=r))
     out.append(dict(kind='lin', fam='nasa9', units=[None], ratio=r))
     us = UNITS_Q if tier == 'quick' else UNITS_T
@@ -352,7 +354,7 @@ def _int_points(cfg):
     return out
 
 
-def _arrays(cfg, ratio):
+def _arrays(cfg, ratio, lengths=None):
     """[(order, [T...])] built from the evaluation points; specials come first."""
     pts, _ = _points(cfg, ratio)
     segs = _segments(cfg)
@@ -368,7 +370,7 @@ def _arrays(cfg, ratio):
         if p not in pri and _candidates(cfg, p)[0]:
             pri.append(p)
     out = []
-    for L in ARRAY_LENGTHS:
+    for L in (lengths or ARRAY_LENGTHS):
         base = [pri[i % len(pri)] for i in range(L)]
         asc = sorted(base)
         half = asc[:(L + 1) // 2]
@@ -672,7 +674,7 @@ def _run_obj_shard(shard, ctx):
                         ctx.nontrivial(('out', _key(cfg), T, getter, form))
         else:
             _note_outside(cfg, ctx)
-        for order, Ts in _arrays(cfg, ratio):
+        for order, Ts in _arrays(cfg, ratio, shard.get('lengths')):
             for cont in CONTAINERS:
                 for getter in GETTERS:
                     case = dict(kind='array', obj=cfg, Ts=Ts, container=cont, getter=getter, order=order)
@@ -726,5 +728,5 @@ LEVEL_TEXT = ('Exhaustive lattice walk on real Nasa, Nasa9 and Shomate objects: 
               'and dS/dT = Cp/T on every edge, refusal outside every NASA-9 segment, array = scalar-by-scalar for all '
               'eight getters; linearity of the evaluators on all basis pairs extends the result to every coefficient vector.')
 LEVEL_NOTE = ('Temperature lattice ratio 1.25 (quick) / 1.1 (thorough); Shomate in 4 (quick) / all 16 (thorough) fitting '
-              'units; array lengths 1,2,3,7,50; extrapolation of NASA-7/Shomate outside the range is recorded, not judged.')
+              'units; array lengths 1,2,3,7,50 (thorough adds 4,13,25); extrapolation of NASA-7/Shomate outside the range is recorded, not judged.')
 TECHNIQUE = 'lattice walk with quadrature edge laws on the implementation, textbook reference model, linearity closure'
